@@ -398,9 +398,16 @@ def lean_imports_closure(module):
     return seen
 
 
+def _mods(module):
+    return list(module) if isinstance(module, (list, tuple)) else [module]
+
+
 def text_audit(module):
     bad = []
-    for m, p in lean_imports_closure(module).items():
+    files = {}
+    for mod in _mods(module):
+        files.update(lean_imports_closure(mod))
+    for m, p in files.items():
         src = strip_lean_comments(open(p).read())
         for mm in FORBIDDEN_RE.finditer(src):
             bad.append("%s: %s" % (m, mm.group(0).strip()))
@@ -412,7 +419,8 @@ def axioms_audit(module, theorems):
     os.makedirs(RUN, exist_ok=True)
     res = {}
     with tempfile.NamedTemporaryFile("w", suffix=".lean", dir=RUN, delete=False) as f:
-        f.write("import %s\n" % module)
+        for mod in _mods(module):
+            f.write("import %s\n" % mod)
         for t in theorems:
             f.write("#print axioms %s\n" % t)
         path = f.name
@@ -515,8 +523,10 @@ class Ctx:
     # -- proof step ---------------------------------------------------------------------------
     def prove(self, module, theorems):
         self.obligations = list(theorems)
+        mods = _mods(module)
+        module = " ".join(mods)
         self.checker_cmd = "cd /verif/lean && lake build %s && lake env lean <#print axioms of each theorem>" % module
-        ok, log, dt = lake_build([module, "driver"])
+        ok, log, dt = lake_build(mods + ["driver"])
         self.notes.append("lake build %s: %s in %.1fs" % (module, "ok" if ok else "FAILED", dt))
         if not ok:
             errs = re.findall(r"error: [^\n]*", log)
@@ -528,11 +538,11 @@ class Ctx:
             if not ok2:
                 raise BuildError("model driver does not build:\n" + log2[-3000:])
             return False
-        bad = text_audit(module)
+        bad = text_audit(mods)
         if bad:
             self.proof_breaks.append({"module": module, "errors": ["forbidden construct: " + b for b in bad]})
             return False
-        ax = axioms_audit(module, theorems)
+        ax = axioms_audit(mods, theorems)
         self.axioms = ax
         for t in theorems:
             a = ax.get(t)
